@@ -91,6 +91,9 @@ def r_prototype_scope(P, rep):
         line = next((l for _, d, l in sites if d < 1), sites[0][2])
         if inside:
             rep.ob(RULE, '%s:%s:%s-parsed-inside-prototype-scope' % (U, f, SPECIFIERS), True, '', where='%s:%d' % (U, line))
+            if not balanced and any(b.opcode == '=' and b.inner and b.inner[0].strip().ref_name == 'scope' for b in pu.functions[f].find('BinaryOperator')):
+                rep.undecided(RULE, '%s:%s:prototype-scope-closed' % (U, f), '%s() assigns the scope chain directly instead of calling %s(): the replay of %s/%s calls cannot tell whether the list\'s scope is closed' % (f, CLOSE, OPEN, CLOSE), where=w)
+                continue
             rep.ob(RULE, '%s:%s:prototype-scope-closed' % (U, f), balanced,
                    '%s() returns on some path with a scope it has opened for the parameter list still open: everything declared after the declarator lands in the prototype scope' % f, where=w)
             continue
